@@ -1148,7 +1148,7 @@ func (r *raft) Step(m *pb.Message) error {
 		}
 
 	case m.GetTerm() < r.Term:
-		if (r.checkQuorum || r.preVote) && (m.GetType() == pb.MsgHeartbeat || m.GetType() == pb.MsgApp) {
+		if (r.checkQuorum || r.preVote || r.isLearner) && (m.GetType() == pb.MsgHeartbeat || m.GetType() == pb.MsgApp) {
 			// We have received messages from a leader at a lower term. It is possible
 			// that these messages were simply delayed in the network, but this could
 			// also mean that this node has advanced its term number during a network
@@ -1170,6 +1170,12 @@ func (r *raft) Step(m *pb.Message) error {
 			// with "pb.MsgAppResp" of higher term would force leader to step down.
 			// However, this disruption is inevitable to free this stuck node with
 			// fresh election. This can be prevented with Pre-Vote phase.
+			//
+			// A learner answers in the same way whatever the options: it never
+			// campaigns, so it has no MsgVote with which to advance the term of
+			// the others, and a learner whose term ran ahead (it voted or
+			// campaigned before it was demoted, or heard a candidate that has
+			// since left) would otherwise ignore its leader for ever.
 			r.send(&pb.Message{To: m.From, Type: pb.MsgAppResp.Enum()})
 		} else if m.GetType() == pb.MsgPreVote {
 			// Before Pre-Vote enable, there may have candidate with higher term,
